@@ -58,13 +58,46 @@ def run(ctx):
     ctx.model("MC_UtfBytes", "MC_UtfBytes_" + tier, emit_to=cases, timeout=ctx.pick(300, 1800), xmx="8g")
     ctx.replay(rep, cases, label="R/UtfBytes", timeout=ctx.pick(600, 2400))
     os.unlink(cases)
+    # V: recorded executions validated by TLC against the same operators
+    rec = vlib.build_harness(lib, "c08_record", ["c08_record.cpp"])
+    files = []
+    files += ctx.record(rec, ctx.pick(4, 16), ctx.pick(1200, 6000), "V/Utf-text", extra_args=["--mode", "0"])
+    files += ctx.record(rec, ctx.pick(4, 16), ctx.pick(2500, 12000), "V/Utf-bytes", extra_args=["--mode", "1"])
+    # every byte string of length 0, 1, 2: one fully logged event each
+    for ln, shards in ((0, 1), (1, 1), (2, 8)):
+        for k in range(shards):
+            files += ctx.record(rec, 1, 0, "V/Utf-all-len%d-%d" % (ln, k),
+                                extra_args=["--mode", "2", "--len", str(ln), "--full", "1", "--shard", "%d/%d" % (k, shards)])
+    # every byte string of length 3 (thorough; quick: first byte from the boundary alphabet), bounds in aggregate
+    firsts = [127, 128, 191, 192, 194, 223, 224, 239, 240, 244, 247, 248, 255, 65, 97] if ctx.quick else list(range(1, 256))
+    per = 1 if ctx.quick else 8
+    groups = [firsts[i:i + per] for i in range(0, len(firsts), per)]
+    nstr = 0
+    for g in groups:
+        files += ctx.record(rec, 1, 0, "V/Utf-all-len3-%d" % g[0], timeout=1800,
+                            extra_args=["--mode", "2", "--len", "3", "--first", ",".join(map(str, g))])
+        nstr += 255 * 255 * len(g)
+    ctx.extra["byte_strings_len3_run_flush_in_3_placements"] = nstr
+    ctx.validate_traces("Trace_Utf", "Trace_Utf", files, label="V/Utf", timeout=ctx.pick(600, 2400))
+    if cnt["scalars"] != NSCALARS:
+        raise vlib.HarnessError("scalar table incomplete: %d rows instead of %d" % (cnt["scalars"], NSCALARS))
     ctx.exhaustive = True
+    ctx.assumptions += [
+        "all 1,112,064 scalar values and all byte strings over the boundary alphabet up to the length in spec/MC_UtfBytes_%s.cfg "
+        "are exhaustive; %s byte strings of length 3 (all 255^2 tails of %d first bytes) and all of length <= 2 were executed; "
+        "longer inputs are random (seeded)" % (tier, nstr, len(firsts)),
+        "U+0000 terminates text in this API: its encoding is checked in the specification, the library is only required to treat it as the end",
+        "ill-formed input: only termination, memory safety (ASan, inputs flush against the end of their allocation, three "
+        "String storage placements) and the length bounds are required, as in the property",
+    ]
     ctx.rule = ("R: one case per block of 64 scalar values / per boundary sequence / per byte string over the boundary alphabet "
                 "(distinct C strings); non-trivial = non-empty input; V: one event per recorded string")
 
 
 def replay(path):
     lib = vlib.build_lib("asan")
+    if os.path.basename(path).startswith("rec-") or path.endswith(".ndjson"):
+        return vlib.replay_recorded(path, lib, "c08_record", ["c08_record.cpp"], "Trace_Utf", "Trace_Utf")
     rep = vlib.build_harness(lib, "c08_replay", ["c08_replay.cpp"])
     r = subprocess.run([rep, "--single", path], env=vlib.run_env())
     return 1 if r.returncode == 1 else (0 if r.returncode == 0 else 2)
